@@ -6,7 +6,7 @@ for d in seeded/*/; do
   id=$(basename $d); prop=${id%%-*}
   if [ $# -gt 0 ] && [[ ! " $* " =~ " $prop " ]]; then continue; fi
   [ -f mirsym/props/$prop.py ] || { echo "$id  no-check"; continue; }
-  out=$(./tools_try.sh $d/patch.diff $prop 2>&1)
+  out=$(./tools_try.sh /verif/$d/patch.diff $prop 2>&1)
   rc=$(echo "$out" | grep -o 'rc=[0-9]*' | tail -1)
   obs=$(echo "$out" | grep "^  obligation=" | sed 's/ profile.*//' | sort -u | tr '\n' ' ' | cut -c1-160)
   echo "$id  $rc  $obs"
